@@ -852,6 +852,8 @@ class _Frame:
                 if b < 0:
                     raise XRaise("ValueError", "negative shift count")
                 return a << b if op is ast.LShift else a >> b
+            if op in (ast.BitAnd, ast.BitOr, ast.BitXor, ast.Sub) and isinstance(a, (set, frozenset)) and isinstance(b, (set, frozenset)):
+                return a & b if op is ast.BitAnd else a | b if op is ast.BitOr else a ^ b if op is ast.BitXor else a - b
             if op in (ast.BitAnd, ast.BitOr):
                 comb = (lambda x, y: x and y) if op is ast.BitAnd else (lambda x, y: x or y)
 
